@@ -391,3 +391,16 @@ func openFake() (*sql.DB, *fakeDB) {
 	}
 	return db, f
 }
+
+var errShutdown = errors.New("the application is shutting down")
+
+// cancellable: a context that can be cancelled, made in one of the ways the standard library offers: with
+// a plain cancel function, or with a cause (context.Cause then differs from ctx.Err(), which is what
+// "the context's error" means).
+func cancellable(parent context.Context, variant uint64) (context.Context, context.CancelFunc) {
+	if variant%2 == 0 {
+		return context.WithCancel(parent)
+	}
+	ctx, cc := context.WithCancelCause(parent)
+	return ctx, func() { cc(errShutdown) }
+}
